@@ -173,8 +173,12 @@ prop("C11", "bbs",
      "disjointness across all (expander, api id) sets; none is the identity, +-G1 base point or either suite's P1; "
      "create(n,a)[..k] == create(k,a) for k<=16, powers of two, n-1; None == empty api id."
      " 13 api ids incl. pairs that differ only in invalid UTF-8 bytes; the public helper prepare_parameters for api id None / "
-     "empty / suite / blind / custom against the reference (generators, scalars, duplicate-freeness).",
-     BBS_BASE, (1500, 4000), (600, 3600))
+     "empty / suite / blind / custom against the reference (generators, scalars, duplicate-freeness)."
+     " Generator monitor also asks the OTHER expander for the same api id on the same thread, before and after (disjoint sets, no "
+     "dependence on history). VALIDATION GRID: one honest commitment (M = 0 / 1 / 3, commit(None) included) x {own, other} expander x "
+     "every generator set (13 api ids + a 252-octet one, with 0 / 2 spare generators) x every challenge api id (13 + None + ids of 200, "
+     "251, 252, 255, 256, 300, 70000 octets) through deserialize_and_validate_commit: only the originating triple validates.",
+     BBS_BASE, (1500, 4000), (600, 3600), min_counters={"validation_grid_own_triples_accepted": 6})
 
 prop("C12", "bbs",
      "one case = (suite, L, header class, position, step kind). History monitor: from an honest signature, a seeded walk of updates "
@@ -247,8 +251,13 @@ prop("C16", "cl",
      "a-1, b+1, b+2^64, 10b, a-2^64, a random group element and the same value under other randomness, in four variants (recompute "
      "E_*_1 keeping all sub-proofs; recompute E_*_2; replace E only; recompute E_*_1 and re-point the square proofs' E) => false. "
      "Every integer leaf +1 / -1 / zero and sibling swaps for selected proofs => false. Domain 0 <= a < b."
-     " Volume sweep of 1500 (12000) honest proofs on small mixed intervals (rare challenge shapes); +N on every integer leaf.",
-     CL_BASE, (1500, 6000), (1800, 14400), min_counters={"transplants": 200, "proof_tampered_variants": 100})
+     " Volume sweep of 1500 (12000) honest proofs on small mixed intervals (rare challenge shapes); +N, -N, +-2N and low-bit-preserving "
+     "edits on every integer leaf. Lower bounds also -1, -1000, -2^64, -random (intervals below or across zero). CHEATING PROVER (hook "
+     "hook_prove_with_decomposition: the library's own sub-provers, square parts and claimed larger-interval bound chosen by the monitor): "
+     "for 7 intervals x 11 out-of-range targets (a-1, a-2, a-2^20, a-width, a-random64, b+1, b+2, b+2^20, b+width, 2b+1, b+random64) "
+     "the proof built with square part 0 / floor sqrt and the smallest claimed bound under which the sub-prover can answer must be "
+     "refused; 3 in-range controls per interval built through the same hook must verify (otherwise inconclusive).",
+     CL_BASE, (1500, 6000), (1800, 14400), min_counters={"transplants": 200, "proof_tampered_variants": 100, "cheating_prover_proofs_submitted": 40, "cheating_prover_controls_accepted": 10})
 
 prop("C17", "cl",
      "one case = one honest serialized proof (issuance ZKPoK for every non-empty hidden set, signature PoK for every hidden set, "
@@ -260,9 +269,13 @@ prop("C17", "cl",
      "the leaking (value field, randomness field) pair and the secret."
      " Also: issuance proofs with a trusted commitment and with equal hidden attributes; proofs over 70/33 (96/130) attributes; exact "
      "division of every field by c, c+-1; sibling-difference attack (s_j - s_k)/c vs m_j - m_k and equal-responses test; products / "
-     "quotients of the group elements of one range proof against g^k for public functions k of the hidden value (with a decoy).",
+     "quotients of the group elements of one range proof against g^k for public functions k of the hidden value (with a decoy)."
+     " Products / quotients of ANY two group elements the recipient holds against products of public bases raised to +-(hidden values). "
+     "Hidden attributes take the boundary values 0, 1, 2^lm-1 in half of the proofs. SIZE CHANNEL: proofs for the candidate values 0, 18, "
+     "2^65, 2^128+1, 2^lm-1 of one hidden attribute (4 / 12 proofs per candidate and proof kind); for every field the range of bit "
+     "lengths per candidate; two candidates whose ranges are >= 12 bits apart are told apart by that field => violation.",
      CL_BASE + ["secrets internal to proof_gen (w, rw, rx, re) are only tested through fields of the proof itself"],
-     (20, 40), (1800, 14400), min_counters={"dictionary_attacks_run": 40, "modular_exponentiations": 3000})
+     (20, 40), (1800, 14400), min_counters={"dictionary_attacks_run": 40, "modular_exponentiations": 3000, "size_channel_proofs": 30, "size_channel_fields_compared": 50})
 
 prop("C19", "cl",
      "one case = one honest serialized proof (as C17). For every integer leaf s, every Fiat-Shamir challenge c recomputable from "
@@ -343,6 +356,49 @@ def dead_C08(drv, pid, tier, seed, binary, err):
                                inconclusive=["worker died; evidence covers only the events before the death"])
             return 1
     return drv.inconclusive(pid, tier, seed, "worker died once but no scenario reproduces the death alone: " + str(err))
+
+
+# ---------------------------------------------------------------- later additions to the rule texts (waves 4 and 5)
+def _more(pid, text, **counters):
+    PROPS[pid]["rule"] += " " + text
+    if counters:
+        PROPS[pid].setdefault("min_counters", {}).update(counters)
+
+
+_more("C01", "VOLUME: 8 x 500 (8 x 4000) distinct signatures through the 80-byte codec (decode, equality, re-encode; every 8th "
+      "verified), with the number of distinct (offset, byte) pairs seen in e as coverage of rare value shapes.",
+      volume_signatures_roundtripped=2000)
+_more("C02", "Header-only signatures (L = 0) are signed and verified with messages = None as well as Some(&[]) (every edit is "
+      "presented in both spellings), with 6 repetitions over all header classes.")
+_more("C04", "Stray 1 / 7 / 16 / 31 / 33 octets after the proof; the non-canonical words ff..ff and r appended and inserted at "
+      "every 32-byte boundary of the scalar part.")
+_more("C06", "Stray octets and non-canonical words (ff..ff, r) appended / inserted at every 32-byte boundary of the commitment "
+      "proof; the relabelled (false) blind-proof statement also with its index list reversed / rotated.")
+_more("C07", "commit(None) and commit(Some(&[])) alternate for M = 0 (zero blind / identity commitment asserted); many-hidden "
+      "shapes: proofs hiding 33 / 40 / 70 / 130 messages, commitments over 33 / 70, blind proofs 20+20 and 1+66.")
+_more("C08", "blind_proof_verify also with message counts that do not match the index counts (each list absent / empty / one "
+      "less / one more / honest / 200 entries).")
+_more("C09", "Every variable-length decoder is also fed the object in other representations (uncompressed points with / without "
+      "the compression flag, doubled, zero-prefixed, reversed, hex text). VOLUME: 300 (2500) x 6 objects per scenario through "
+      "the octet codecs.", objects_round_tripped=3000)
+_more("C10", "Consistent disclosed (index, message) pairs reversed / rotated and one pair listed twice (the reference hashes pairs "
+      "in the order supplied and counts every entry); index lists that merely violate the ascending-order precondition while "
+      "stating the same true statement are not compared (DESIGN.md 11.3).")
+_more("C12", "New values of 255 / 256 / 65535 / 65536 / 65537 / 131072 octets among the step kinds.")
+_more("C14", "Hidden positions take the boundary values 0 / 1 / 2^lm-1; commit_with_pk runs inside a monitored call; ISSUER VIEW: "
+      "verify_proof and blind_sign are also called with value-only commitments (randomness 0) and the proof after a JSON round "
+      "trip, and the unblinded result must verify; -N, +-2N and low-bit-preserving edits on every field class.")
+_more("C15", "Single-field edits of the signer key (N+2, N*3, b+1, c+1), of every base a_i (revealed attribute 0 excepted: a^0 = 1) "
+      "and of the commitment key (N+2, N*3, N / h of another key, h+1, g_i+1 for i = 0 and hidden i; bases of revealed positions "
+      "are counted, not asserted); -N, +-2N and low-bit-preserving edits (+2^64, +2^128, +2^256, top-bit flips, low 128 bits "
+      "only, negation) on every field class.")
+_more("C18", "Commitment keys for n_attributes = None / Some(0) / Some(1) / Some(7) and bases for n = 0 / 1 / 9: sizes as asked, "
+      "well-formed, JSON round trip. A generator that does not return within 60 s on a toy modulus is inconclusive (helper "
+      "thread), the rest of the workload continues; violations are streamed to the event log and reported even if the worker "
+      "does not finish.")
+_more("C19", "Hidden attributes take the boundary values 0, 1, 2^lm-1 in half of the proofs; small secrets (< 2^64) are tested "
+      "against the challenge of their OWN sub-proof (floor(s/c) must still be >= 2^64 away, i.e. the blinding alone exceeds "
+      "c * 2^64).", small_secrets_examined=1)
 
 
 def post_C07(drv, res, binary, tier, seed):
